@@ -432,13 +432,26 @@ def check(run):
     run.touch(oru)
 
     def _is_rearm(g_, c):
-        return (q.callee_name(c) or '').endswith('udp::socket::async_receive_from') and 'on_read_udp' in q.render(g_, c)
-    rearm = [c for c in oru.calls() if _is_rearm(oru, c)]
-    for c in oru.calls():       # a call of a local lambda whose body re-arms (drop_truncated())
-        if '::operator()' in (c.get('callee') or '') or 'on_read_udp(' in (q.callee_name(c) or ''):
-            lam = fx.by_usr(c.get('usr')) if c.get('usr') else None
-            if lam and any(_is_rearm(lam[0], x) for x in lam[0].calls()):
-                rearm.append(c)
+        if not (q.callee_name(c) or '').endswith('udp::socket::async_receive_from'):
+            return False
+        if 'on_read_udp' in q.render(g_, c):
+            return True
+        return any((fx.by_usr(u) or [None])[0] is not None and fx.by_usr(u)[0].usr == oru.usr for u in q.completion_targets(g_, c))
+
+    def _body_rearms(g_, depth=0):
+        """g_ (a local lambda's operator() or a helper called on this connection) re-arms on every path"""
+        sites_ = [c for c in g_.calls() if _is_rearm(g_, c) or _call_rearms(g_, c, depth + 1)]
+        return bool(sites_) and (g_.cfg is None or q.on_all_paths(g_, sites_))
+
+    def _call_rearms(g_, c, depth=0):
+        if depth > 3 or not c.get('usr'):
+            return False
+        nm = c.get('callee') or ''
+        if not ('::operator()' in nm or 'socks_connection::' in nm):
+            return False
+        tgt = fx.by_usr(c['usr'])
+        return bool(tgt) and tgt[0].file.endswith('socks_server.cpp') and tgt[0].usr != oru.usr and _body_rearms(tgt[0], depth)
+    rearm = [c for c in oru.calls() if _is_rearm(oru, c) or _call_rearms(oru, c)]
     if not rearm:
         run.broke('on_read_udp: no re-arm of async_receive_from found')
     stuck = q.exit_reachable_under(oru, None, rearm, lambda atom: {'ec': False}.get(q.render(oru, q.strip_casts(atom))))
